@@ -252,7 +252,16 @@ def hermes_state(ctx, rule):
     ctx.check(parse == ["Result::ok(vlq::parse_vlq_segment_into(some(Iterator::next(var:Split<char>)),^var:Vec<i64>))"], rule, fn, "parse-error->None",
               "a segment that fails to parse disables scope lookup for this source only (.ok()? inside the per-source closure)", detail=str(parse))
     lit = [q.shape(b.expr_of_rvalue(s["rv"]), roles) for bi, si, s, it in b.locations() if not it and s["k"] == "assign" and s["rv"]["k"] == "agg" and s["rv"].get("adt") == "hermes::HermesFunctionMap"]
-    ctx.check(len(lit) == 1 and lit[0].startswith("HermesFunctionMap{names:Clone::clone(") or (len(lit) == 1 and ".names" in lit[0]), rule, fn, "function-map", "names and the decoded offsets form the function map", detail=str(lit)[:200])
+    ENTRY = "try(Iterator::next(slice::iter(try(Option::as_ref(arg2)))))"
+    pv = [q.root_local(q.arg_expr(b, t, 0)) for bi, t in q.calls_to(b, "Vec::<T, A>::push") if q.shape(q.arg_expr(b, t, 1), roles).startswith("HermesScopeOffset{")]
+    lroles = dict(roles)
+    if len(pv) == 1 and pv[0] is not None:
+        lroles[pv[0]] = "OFFSETS"
+    lit = [q.shape(b.expr_of_rvalue(s["rv"]), lroles) for bi, si, s, it in b.locations() if not it and s["k"] == "assign" and s["rv"]["k"] == "agg" and s["rv"].get("adt") == "hermes::HermesFunctionMap"]
+    ctx.check(lit == ["HermesFunctionMap{names:%s.names,mappings:OFFSETS}" % ENTRY], rule, fn, "function-map",
+              "the names of the source's first scope entry and the offsets decoded in this call form the function map", detail=str(lit)[:300])
+    sp = [q.shape(b.expr_of_call(t)) for bi, t in q.calls_to(b, "str::<impl str>::split")]
+    ctx.check("str::split(%s.mappings,59)" % ENTRY in sp, rule, fn, "mappings:same-entry", "the decoded text is the mappings string of that same entry, split on ';'", detail=str(sp))
     h = ctx.body("hermes::decode_hermes")
     qs = [bi for bi, t in h.calls() if q.nice(t.get("callee")) == "Try::branch"]
     ctx.check(len(qs) == 2, rule, h.path, "two-?", "decode_hermes itself fails only for a missing payload or a failing regular decode", detail=str(len(qs)))
